@@ -289,10 +289,10 @@ fn strat(t: Tier) -> BoxedStrategy<Case> {
 }
 
 fn run(ctx: &Ctx) {
-    if !ctx.run_prop("arbitrary_lists", RULE, ctx.cases(8000, 960_000), strat, check) {
+    if !ctx.run_prop("arbitrary_lists", RULE, ctx.cases(8000, 5_000_000), strat, check) {
         return;
     }
-    if !ctx.run_prop("ledger_dsl_json_reports", RULE_REPORT, ctx.cases(1200, 100_000), strat_ledger, check_report) {
+    if !ctx.run_prop("ledger_dsl_json_reports", RULE_REPORT, ctx.cases(1200, 400_000), strat_ledger, check_report) {
         return;
     }
     crate::props::proc_checks::c14_mcp(ctx);
